@@ -57,4 +57,102 @@ theorem pp_none_not_power {o : Oracle σ} (h : PerfectPowerModel o) (t : σ) (n 
   subst hnone
   exact Ymq.C08.perfect_power_spec n none hres
 
+/-! ### call sites of `rho`: the guarded oracle of version 3 -/
+
+/-- what holds at every call of `pollard_rho::rho` inside `factor_impl` -/
+def RhoGuard (n : Nat) : Prop := NoSmall n ∧ n ≠ 1
+
+instance : DecidablePred RhoGuard := fun n => by unfold RhoGuard NoSmall; infer_instance
+
+/-- `o` with the `rho` field silenced outside `RhoGuard` -/
+def guardRho (o : Oracle σ) : Oracle σ :=
+  { o with rho := fun t n => if RhoGuard n then o.rho t n else (none, (o.rho t n).2) }
+
+theorem factorStep_guardRho (o : Oracle σ) (rec : Nat → St σ → Res (St σ)) (n : Nat)
+    (hns : NoSmall n) (alg : Algo) (s : St σ) :
+    factorStep (guardRho o) rec n alg s = factorStep o rec n alg s := by
+  by_cases h1 : n = 1
+  · unfold factorStep; rw [if_pos h1, if_pos h1]
+  · have hr : ∀ t, (guardRho o).rho t n = o.rho t n := fun t => if_pos ⟨hns, h1⟩
+    have hauto : ∀ s, autoRho (guardRho o) rec n s = autoRho o rec n s := by
+      intro s; unfold autoRho; rw [hr]
+    have harm : ∀ a s, armPhase (guardRho o) rec n a s = armPhase o rec n a s := by
+      intro a s
+      cases a <;> first | rfl | (unfold armPhase; simp only [hr])
+    have hap : ∀ s, autoPhase (guardRho o) rec n alg s = autoPhase o rec n alg s := by
+      intro s; unfold autoPhase; rw [hauto]; rfl
+    have hcp : ∀ s, compositePhase (guardRho o) rec n alg s = compositePhase o rec n alg s := by
+      intro s; unfold compositePhase; rw [hap]
+      cases autoPhase o rec n alg s with
+      | inl r => rfl
+      | inr p => obtain ⟨a, s1⟩ := p; simp only [harm]; rfl
+    unfold factorStep
+    rw [if_neg h1, if_neg h1]
+    show (match (o.pp s.os n).1 with
+      | some (p, k) => ppResult s k (rec p { s with os := (o.pp s.os n).2, factors := [] })
+      | none =>
+        if (o.prime (o.pp s.os n).2 n).1 = true then
+          Res.ok ({ s with os := (o.prime (o.pp s.os n).2 n).2 }.push n)
+        else compositePhase (guardRho o) rec n alg { s with os := (o.prime (o.pp s.os n).2 n).2 }) = _
+    rw [hcp]
+    rfl
+
+/-- the guarded oracle of version 3: `rho` only inside `RhoGuard`, `qs64` / `squfof` only inside `Guard` -/
+def guardOracle3 (o : Oracle σ) : Oracle σ := guardOracle (guardRho o)
+
+theorem factorImpl_guard3_eq (o : Oracle σ) (hok : OracleOK (guardOracle3 o)) (alg : Algo) :
+    ∀ (fuel n : Nat) (s : St σ), NoSmall n →
+      factorImpl o fuel n alg s = factorImpl (guardOracle3 o) fuel n alg s := by
+  intro fuel
+  induction fuel with
+  | zero => intro n s _; rw [factorImpl_zero, factorImpl_zero]
+  | succ fuel ih =>
+    intro n s hns
+    rw [factorImpl_succ, factorImpl_succ, ← factorStep_guardRho o _ n hns alg s]
+    exact factorStep_congr (o := guardRho o) hok hns (fun m hm s' => ih m s' (hns.dvd hm)) alg s
+
+theorem factor_guard3_eq (o : Oracle σ) (hok : OracleOK (guardOracle3 o)) (fuel n : Nat) (alg : Algo)
+    (os : σ) : factor o fuel n alg os = factor (guardOracle3 o) fuel n alg os := by
+  rw [factor_eq, factor_eq]
+  by_cases h0 : n = 0
+  · rw [if_pos h0, if_pos h0]
+  · rw [if_neg h0, if_neg h0]
+    by_cases hb : bits n > 500
+    · rw [if_pos hb, if_pos hb]
+    · rw [if_neg hb, if_neg hb]
+      unfold factorRun
+      rw [factorImpl_guard3_eq o hok alg fuel _ _ (trialDiv_noSmall h0 (by omega))]
+      rfl
+
+
+theorem usesRho64_guardRho {o : Oracle σ} (h : UsesRho64 o) : UsesRho64 (guardRho o) := by
+  intro t n as b hr
+  change (if RhoGuard n then o.rho t n else (none, (o.rho t n).2)).1 = some (as, b) at hr
+  by_cases hg : RhoGuard n
+  · rw [if_pos hg] at hr; exact h t n as b hr
+  · rw [if_neg hg] at hr; simp at hr
+
+/-- **the contract at the call sites, from the models, version 3** -/
+theorem oracleOK_guard3 {o : Oracle σ} (hpp : PerfectPowerModel o) (hfs : UsesFinalStep o)
+    (hqs : Qs64Model o) (hrho : RhoModel o) (hpm1 : UsesPm1 o) (hecm : UsesEcmExits o)
+    (hsq : SqufofModel Ymq.Squfof.exactSeed o) (hun : UsesUnexpectedFactor o) (hres : ResidualOK o) :
+    OracleOK (guardOracle3 o) :=
+  oracleOK_guard (o := guardRho o) Ymq.Squfof.exactSeed_ok
+    (fun t n r h => usesPerfectPower_of_model' hpp t n r h) (fun t alg n ds h => hfs t alg n ds h)
+    (fun t n a b h => hqs t n a b h) (usesRho64_guardRho (usesRho64_of_model' hrho))
+    ⟨fun t n as b h => hpm1.1 t n as b h, fun t n as b h => hpm1.2 t n as b h⟩
+    ⟨fun t n a b h => hecm.1 t n a b h, fun t n a b h => hecm.2.1 t n a b h,
+      fun t n a b h => hecm.2.2 t n a b h⟩
+    (fun t n a b h => hsq t n a b h) (fun t alg n d h => hun t alg n d h)
+    ⟨fun s alg n d hn h => hres.unexpectedNotWhole s alg n d hn h⟩
+
+/-- inside `guardOracle3` the `rho` field answers only on arguments where the model of
+`pollard_rho::rho` returns normally (no panic site of `rho64` reached) -/
+theorem guard3_rho_returns {o : Oracle σ} (t : σ) (n : Nat) (as : List Nat) (b : Nat)
+    (h : ((guardOracle3 o).rho t n).1 = some (as, b)) : ∃ r, Ymq.PollardRho.rho n = some r := by
+  change (if RhoGuard n then o.rho t n else (none, (o.rho t n).2)).1 = some (as, b) at h
+  by_cases hg : RhoGuard n
+  · exact Ymq.C03Rho.rho_no_panic_call_site n hg.1 hg.2
+  · rw [if_neg hg] at h; simp at h
+
 end Ymq.Factor
